@@ -25,7 +25,7 @@ import time
 from concurrent.futures import ThreadPoolExecutor
 from fractions import Fraction
 
-from common import REPO, VERIF, coq_list, sh, shrink_list
+from common import REPO, VERIF, coq_list, sh, shrink_list, source_pins
 
 TRUSTED_BASE = [
     "Coq 8.16.1 kernel + coqc (vm_compute used for the concrete refutation witnesses and the correspondence terms; no native_compute)",
@@ -50,6 +50,27 @@ RULE = ("bounded-exhaustive: every sequence of length 1..d over clusters of 6 op
         "restart = the same sequence split over two fresh interpreters; concurrent = 4/8 forked workers x 12/50 rounds with pairwise "
         "distinct names; identity-class table over universe pairs; a case is non-trivial when at least two operations compete for one base "
         "name; distinct by the operation tuple")
+
+# Functions of /repo the HAND-WRITTEN model (coq/C15/Model.v) and the observation code of this
+# harness were written from and that the translator neither regenerates nor pins completely.
+# (Regenerated / exactly pinned by tr/translate_c15.py and therefore absent here: CalculationExecutor.__str__,
+# Species.__str__, Constraints.__str__, Constraints.cartesian, _string_without_leading_hyphen,
+# CalculationExecutorO._opt_trajectory_name/_opt_trajectory_exists, input/output_filename_for of the wrappers.)
+PINS = [("autode/calculations/executors.py", q) for q in (
+    "CalculationExecutor.__init__", "CalculationExecutor.run", "CalculationExecutor.generate_input",
+    "CalculationExecutor._execute_external", "CalculationExecutor.set_properties", "CalculationExecutor.clean_up",
+    "CalculationExecutor.terminated_normally", "CalculationExecutor.output", "CalculationExecutor._fix_unique",
+    "_IndirectCalculationExecutor", "CalculationExecutorO.__init__", "CalculationExecutorO.run",
+    "CalculationExecutorO.set_properties", "CalculationExecutorO._set_properties_from_optimiser",
+    "CalculationExecutorO.terminated_normally")] + [("autode/calculations/calculation.py", q) for q in (
+    "Calculation.__init__", "Calculation._executor_for", "Calculation.run", "Calculation.clean_up",
+    "Calculation._check_properties_exist", "Calculation.terminated_normally", "Calculation.copy", "Calculation.molecule")] + [
+    ("autode/calculations/input.py", "CalculationInput"),
+    ("autode/calculations/output.py", "CalculationOutput"), ("autode/calculations/output.py", "BlankCalculationOutput"),
+    ("autode/utils.py", "requires_output_to_exist"),
+    ("autode/constraints.py", "Constraints.distance"),
+    ("autode/opt/optimisers/base.py", "NDOptimiser.print_geometries"), ("autode/opt/optimisers/base.py", "print_geometries_from"),
+]
 
 SLICE = ["C15/Base.v", "C15/Model.v", "C15/Lemmas.v", "C15/Props.v", "C15/Corr.v", "gen/C15_Gen.v"]
 PRE = ("From Coq Require Import List String Ascii Bool ZArith Arith.\nFrom AV.lib Require Import QcInst.\n"
@@ -734,8 +755,8 @@ def fixed_clusters(U):
     ]
 
 
-def random_cluster(ctx, U, size=6):
-    base = ctx.rng.choice(U)
+def random_cluster(ctx, U, size=6, cheap=False):
+    base = ctx.rng.choice([sp for sp in U if not (cheap and sp["meth"] == "surf")])
     same = [j for j, sp in enumerate(U) if sp["name"] == base["name"] and sp["meth"].split("_")[0] == base["meth"].split("_")[0]]
     ops = []
     while len(ops) < size:
@@ -875,9 +896,9 @@ def correspondence_sequences(ctx, U, full, seen, nm):
     clusters = fixed_clusters(U)
     nrand = 2 if not full else 6
     for k in range(nrand):
-        clusters.append((f"random{k}", random_cluster(ctx, U)))
+        clusters.append((f"random{k}", random_cluster(ctx, U, cheap=not full)))
     seqs, sinfo = [], []
-    qd = {"identity-fields": 4, "names-prefix": 4, "object-reuse": 4}
+    qd = {"identity-fields": 4, "names-prefix": 4, "object-reuse": 3, "opt-trajectory": 2}   # optimisations cost ~0.1 s each
     td = {"identity-fields": 6, "names-prefix": 5, "orca-solvation": 5, "constraints": 5, "whitespace": 5, "object-reuse": 5}
     for ci, (label, cl) in enumerate(clusters):
         d = td.get(label, 4) if full else qd.get(label, 3)
@@ -889,7 +910,7 @@ def correspondence_sequences(ctx, U, full, seen, nm):
     nlong = 150 if not full else 1500
     for _ in range(nlong):
         ln = ctx.rng.randint(6, 12)
-        cl = random_cluster(ctx, U, size=5)
+        cl = random_cluster(ctx, U, size=5, cheap=not full)
         seqs.append([ctx.rng.choice(cl) if ctx.rng.random() < 0.8 else
                      mkop(U, ctx.rng.randrange(len(U)), ctx.rng.choice(OUTCOMES), ctx.rng.choice(CMODES)) for _ in range(ln)])
         sinfo.append(("random-long", ln))
@@ -1108,6 +1129,10 @@ def run(ctx):
     sys.path.insert(0, REPO)
     full = not ctx.quick
     seen = {}
+    pins_changed = source_pins(ctx.pid, PINS)
+    ctx.cov["source_pins"] = {"pinned": len(PINS), "changed": pins_changed}
+    if pins_changed:
+        ctx.log("source pins changed:", pins_changed)
     # 1. regenerate the model parameters from /repo
     rc, out = sh(["python3", f"{VERIF}/tr/translate_c15.py"], timeout=120)
     ctx.log("translator:", out.strip()[:400])
@@ -1189,6 +1214,9 @@ def run(ctx):
     new_findings = len(ctx.violations) - n0
     if not proofs_ok:
         ctx.proof_failure(info, found_any_input=(new_findings > 0))
+    if pins_changed and new_findings == 0 and proofs_ok and not (corr_bad or corr_err):
+        ctx.violation("hand model no longer pinned to the source: " + ", ".join(pins_changed),
+                      {"kind": "source-pin", "changed": pins_changed}, found_input=False)
     if corr_bad or corr_err:
         if new_findings == 0:
             ctx.violation("model and implementation disagree and no property-level oracle failed on the implementation",
